@@ -7,7 +7,16 @@ from x2p import impl as I
 HEADER = ('Require Import X2P.Base.Prelude X2P.Base.PyCmp X2P.Model.Crit X2P.Corr.C12.\nOpen Scope Z_scope.\n')
 TARGETS = ['theories/Props/C12.vo', 'theories/Corr/C12.vo']
 FN = {'SUMIF': 'FSumif', 'SUMIFS': 'FSumifs', 'COUNTIFS': 'FCountifs', 'AVERAGEIFS': 'FAvgifs'}
-WORDS = ['apple', 'Apple', 'APPLE', 'pear', 'fig', 'ab', 'a', 'b', 'abc', 'xay']
+WORDS = ['apple', 'Apple', 'APPLE', 'pear', 'fig', 'ab', 'a', 'b', 'abc', 'xay', 'K10', 'L10', 'R7', 'L7', 'lot 5', 'LOT 5', 'bin 5']
+
+
+def strict_date(s):
+    """the oracle for 'does this text read as a date': dateutil's strict parser, called directly (not through the runtime helper)"""
+    from dateutil import parser as dp
+    try:
+        return dp.parse(s)
+    except (dp.ParserError, TypeError):
+        return None
 
 
 def empty():
@@ -113,12 +122,25 @@ def gen_recipe(rng):
         any_quoted = any_quoted or quoted
         cells.update(extra)
         pairs.append({'col': c, 'len': ln, 'k': k, 'text': t})
+    # whole-column spellings (A:A): every range then spans all rows of the sheet, however far each column is filled
+    whole = rng.random() < 0.15
+    if whole:
+        for c in list(cols):
+            if c != 'E' and rng.random() < 0.6:
+                cols[c] = cols[c][:max(1, len(cols[c]) - rng.randint(1, 3))]            # columns filled to different heights
+        cols['E'] = cols['E'] + [rng.randint(1, 50) for _ in range(rng.randint(0, 3))]
     for c, col in cols.items():
         for r, v in enumerate(col):
             if v is not None:
                 cells['%s%d' % (c, r + 1)] = v
-    off = rng.choice([0, 0, 0, 1]) if fn == 'SUMIF' else 0
+    off = rng.choice([0, 0, 0, 1]) if fn == 'SUMIF' and not whole else 0
     rng_txt = lambda c, ln, o=0: '%s%d:%s%d' % (c, 1 + o, c, ln + o)
+    if whole:
+        rows = max([9] + [int(''.join(ch for ch in a if ch.isdigit())) for a in cells])       # the formula sits in H9
+        n = rows
+        for p in pairs:
+            p['len'] = rows
+        rng_txt = lambda c, ln, o=0: '%s:%s' % (c, c)
     if fn == 'SUMIF':
         p = pairs[0]
         with_target = rng.random() < 0.8
@@ -174,7 +196,7 @@ def make_case(rc):
             strings.add(p['k']['s'])
     dates = []
     for s in sorted(strings):
-        dv = rt._parse_date_obj(s)
+        dv = strict_date(s)
         dates.append('(%s, %s)' % (C.cstr(s), 'None' if dv is None else '(Some %s)' % C.cval(dv)))
     reprs = C.clist(['(%s, %s)' % (C.cfloat(f), C.cstr(repr(f))) for f in sorted(floats)])
     coq = 'CCrit %s %s %s %s %s %s' % (
